@@ -39,6 +39,10 @@ var AllTemplates = []Template{
 	{`sys_platform == "win32"`, tF},
 	{`sys_platform == "linux"`, tT},
 	{`sys_platform != "darwin"`, tT},
+	// String literals compare case-sensitively: two markers that differ only
+	// in the case of a literal have different truth values.
+	{`sys_platform == "Linux"`, tF},
+	{`os_name == "POSIX"`, tF},
 	{`os_name == "posix"`, tT},
 	{`os_name == "nt"`, tF},
 	{`os_name != "posix"`, tF},
